@@ -201,8 +201,8 @@ def run(M, rep, tier, only=None):
         groups = {}
         for p in paths:
             it = [v for a, v in p.decisions if a[0] == "iter"]
-            if not it or it[0] is not True:
-                continue
+            if it and it[0] is not True:
+                continue        # (no loop decision at all: the per-element code sits in a comprehension, evaluated for element 0)
             u, w = elem_terms(p)
             if u is None or w is None:
                 continue
@@ -289,8 +289,14 @@ def run(M, rep, tier, only=None):
                     if p.terminal[0] == "raise":
                         got = ("raise", p.terminal[1].cls)
                     else:
+                        rt = p.terminal[1].t
+                        # the per-element code in a comprehension: its element expression, evaluated for element 0 like a loop body
+                        while rt and rt[0] == "call" and rt[1] in ("tuple", "list") and len(rt[2]) == 1:
+                            rt = rt[2][0]
+                        if rt and rt[0] == "comp" and len(rt[3]) == 1 and not rt[4]:
+                            rt = ("list", (rt[2],))
                         try:
-                            val = te.ev(p.terminal[1].t)
+                            val = te.ev(rt)
                         except Unknown as e:
                             raise AnalysisError("C06.R2: cannot evaluate the transformed index %s (%s)" % (show(p.terminal[1].t)[:120], e))
                         val = val[0] if isinstance(val, (tuple, list)) and len(val) == 1 else val
